@@ -44,11 +44,12 @@ VARIABLES
   ops        \* history, printed by the generation configuration
 vars == << sent, net, macbuf, prfbuf, outcome, fresh, decBeforeMac, cipherOnPlain, ops >>
 
-None == [v |-> "none", m |-> "-"]
-Acc(m) == [v |-> "accept", m |-> m]
-Rej == [v |-> "reject", m |-> "-"]
-Plain == [v |-> "plain", m |-> "-"]
-Keys(k) == [v |-> "keys", m |-> k]
+\* verdicts are uniform records (comparing a string with a tuple is a TLC evaluation error, not FALSE)
+None == [v |-> "none", m |-> "-", k |-> << >>]
+Acc(m) == [v |-> "accept", m |-> m, k |-> << >>]
+Rej == [v |-> "reject", m |-> "-", k |-> << >>]
+Plain == [v |-> "plain", m |-> "-", k |-> << >>]
+Keys(k) == [v |-> "keys", m |-> "-", k |-> k]
 
 Init == /\ sent = << >> /\ net = {}
         /\ macbuf = [o \in Objs |-> [d \in Roles |-> << >>]]
@@ -74,10 +75,12 @@ Protect(o, r, m) ==
   /\ UNCHANGED << prfbuf, decBeforeMac, cipherOnPlain >>
 
 \* ---- adversary: every edit yields a datagram whose altered segment is "mod"
-Genuine(d) == d.sk /\ d.h # 0 /\ d.h = d.b /\ d.b = d.i
+\* the cleartext header is determined by the message (its header fields and total length), so the header of another
+\* protection of the SAME message is the same octets: provenance of the header is compared by content
+Genuine(d) == d.sk /\ d.h # 0 /\ d.b # 0 /\ d.b = d.i /\ sent[d.h].m = sent[d.b].m
 AdvEdit(kind) ==
   \E d \in net :
-    /\ Genuine(d)
+    /\ Genuine(d) /\ d.h = d.b
     /\ Step([op |-> "adv", kind |-> kind, d |-> d.h, d2 |-> 0])
     /\ net' = net \cup { CASE kind = "fliphdr"  -> [d EXCEPT !.h = 0]
                            [] kind = "flipbody" -> [d EXCEPT !.b = 0]
@@ -88,17 +91,18 @@ AdvEdit(kind) ==
     /\ UNCHANGED << sent, macbuf, prfbuf, outcome, fresh, decBeforeMac, cipherOnPlain >>
 AdvSplice ==
   \E d1, d2 \in net :
-    /\ Genuine(d1) /\ Genuine(d2) /\ d1 # d2
+    /\ Genuine(d1) /\ Genuine(d2) /\ d1 # d2 /\ d1.h = d1.b /\ d2.h = d2.b
     /\ Step([op |-> "adv", kind |-> "splice", d |-> d1.h, d2 |-> d2.h])
     /\ net' = net \cup { [h |-> d1.h, b |-> d2.b, i |-> d2.i, sk |-> TRUE] }
     /\ UNCHANGED << sent, macbuf, prfbuf, outcome, fresh, decBeforeMac, cipherOnPlain >>
 
 \* ---- receiver
-MacValidFresh(o, dir, d) == Genuine(d) /\ sent[d.h].ks = KeysetOf(o) /\ sent[d.h].dir = dir
+MacValidFresh(o, dir, d) == Genuine(d) /\ sent[d.b].ks = KeysetOf(o) /\ sent[d.b].dir = dir
 MacValidLong(o, dir, d)  == MacValidFresh(o, dir, d) /\ MacInput(o, dir, "x") = << "x" >>
-Verdict(valid, d) == IF valid THEN Acc(sent[d.h].m) ELSE Rej
+Verdict(valid, d) == IF valid THEN Acc(sent[d.b].m) ELSE Rej
 Unprotect(o, r, d) ==
-  /\ Step([op |-> "unprotect", o |-> o, r |-> r, h |-> d.h, b |-> d.b, i |-> d.i, sk |-> d.sk])
+  /\ Step([op |-> "unprotect", o |-> o, r |-> r, h |-> d.h, b |-> d.b, i |-> d.i, sk |-> d.sk,
+           exp |-> IF ~d.sk THEN Plain ELSE Verdict(MacValidFresh(o, IF PeerKeys THEN Peer(r) ELSE r, d), d)])
   /\ IF ~d.sk
        THEN /\ outcome' = Plain /\ fresh' = Plain          \* handled as an unprotected datagram: no key is applied
             /\ UNCHANGED << macbuf, decBeforeMac, cipherOnPlain >>
@@ -134,15 +138,15 @@ AsFresh == outcome = fresh                                                      
 AcceptOnlySent ==                                                                               \* C02
   \A o \in Objs, r \in Roles, d \in net :
     (d.sk /\ MacValidFresh(o, IF PeerKeys THEN Peer(r) ELSE r, d)) =>
-        Genuine(d) /\ sent[d.h].ks = KeysetOf(o) /\ sent[d.h].dir = Peer(r)
+        Genuine(d) /\ sent[d.b].ks = KeysetOf(o) /\ sent[d.b].dir = Peer(r)
 RoundTrip ==                                                                                    \* C01
   \A o \in Objs, d \in net :
-    (Genuine(d) /\ sent[d.h].good /\ sent[d.h].ks = KeysetOf(o)) =>
-        MacValidFresh(o, IF PeerKeys THEN Peer(Peer(sent[d.h].dir)) ELSE Peer(sent[d.h].dir), d)
+    (Genuine(d) /\ sent[d.b].good /\ sent[d.b].ks = KeysetOf(o)) =>
+        MacValidFresh(o, IF PeerKeys THEN Peer(Peer(sent[d.b].dir)) ELSE Peer(sent[d.b].dir), d)
 MacBeforeDecrypt == ~decBeforeMac                                                               \* C02
 RetypeIsPlain == ~cipherOnPlain                                                                 \* C02
 NoReflection ==                                                                                 \* C02: same role that produced it
-  \A o \in Objs, d \in net : Genuine(d) => ~MacValidFresh(o, IF PeerKeys THEN Peer(sent[d.h].dir) ELSE sent[d.h].dir, d)
+  \A o \in Objs, d \in net : Genuine(d) => ~MacValidFresh(o, IF PeerKeys THEN Peer(sent[d.b].dir) ELSE sent[d.b].dir, d)
                                            \/ ~PeerKeys
 View == << sent, net, macbuf, prfbuf, outcome, fresh, decBeforeMac, cipherOnPlain, Len(ops) >>
 =============================================================================
